@@ -127,6 +127,17 @@ def pair_worker(task):
                     if float(r) != val and not (math.isnan(val)):
                         bad.append(("si-value", a.__name__, name, b.__name__,
                                     float(r), val, (va, ua, vb, ub)))
+                    if type(r) is SI:
+                        try:
+                            back = SI(1.0, r.unit)
+                            if list(back.sisig()) != exp:
+                                bad.append(("result-unit-text", a.__name__,
+                                            name, b.__name__, r.unit, exp))
+                        except Exception as ex:  # noqa
+                            bad.append(("result-unit-text-raised", a.__name__,
+                                        name, b.__name__,
+                                        repr(getattr(r, "unit", None)),
+                                        type(ex).__name__))
                     # the same operation right after a quantity of another
                     # class was made with a unit name that the result class
                     # uses too (with another factor)
@@ -247,6 +258,51 @@ def pair_worker(task):
                 if (x == y) is not False or (x != y) is not True:
                     bad.append(("mixed-type-equality", a.__name__,
                                 b.__name__))
+            # the same between generic SI values: equal signatures compare,
+            # add and subtract by value, different signatures are refused
+            for va_, vb_ in ((2.0, 1.0), (1.5, 1.5), (-1.0, 0.0)):
+                ga = mk(a, va_, None).asSI()
+                gb = mk(b, vb_, None).asSI()
+                same_sig = rsig(a.__name__) == rsig(b.__name__)
+                for name, op in (("<", operator.lt), ("<=", operator.le),
+                                 (">", operator.gt), (">=", operator.ge),
+                                 ("+", operator.add), ("-", operator.sub)):
+                    n += 1
+                    try:
+                        r = op(ga, gb)
+                        raised = False
+                    except (ValueError, TypeError):
+                        raised = True
+                    except Exception as ex:  # noqa
+                        raised = "other " + type(ex).__name__
+                    if not same_sig:
+                        if raised is not True:
+                            bad.append(("generic-SI-mixed-signature-accepted",
+                                        a.__name__, name, b.__name__, raised))
+                    elif raised is not False:
+                        bad.append(("generic-SI-same-signature-refused",
+                                    a.__name__, name, b.__name__, raised))
+                    elif name in "+-":
+                        if float(r) != op(va_, vb_) or \
+                                sig_of(r, SI) != rsig(a.__name__):
+                            bad.append(("generic-SI-arith", a.__name__, name,
+                                        b.__name__, float(r), op(va_, vb_)))
+                    elif r is not op(va_, vb_):
+                        bad.append(("generic-SI-compare", a.__name__, name,
+                                    b.__name__, (va_, vb_), r))
+                # the unit text of a generic value names its signature
+                for g in (ga, gb):
+                    try:
+                        back = SI(float(g), g.unit)
+                        if list(back.sisig()) != list(g.sisig()) or \
+                                float(back) != float(g):
+                            bad.append(("generic-SI-unit-text", a.__name__,
+                                        g.unit, list(back.sisig()),
+                                        list(g.sisig())))
+                    except Exception as ex:  # noqa
+                        bad.append(("generic-SI-unit-text-raised", a.__name__,
+                                    repr(getattr(g, "unit", None)),
+                                    type(ex).__name__))
         # number (*,/) quantity, quantity (*,/) number
         for (va, ua) in operands(a):
             x = mk(a, va, ua)
